@@ -1,1 +1,275 @@
-fn main(){}
+//! C16 — normalisation keeps character positions; search tokens tile the original text.
+
+mod golden;
+
+use rayon::prelude::*;
+use serde_json::{json, Value};
+use tantivy::tokenizer::{TokenStream, Tokenizer};
+use vaporetto::{CharacterBoundary, CharacterType, Model, Predictor, Sentence};
+use vaporetto_rules::sentence_filters::{ConcatGraphemeClustersFilter, KyteaWsConstFilter, SplitLinebreaksFilter};
+use vaporetto_rules::string_filters::KyteaFullwidthFilter;
+use vaporetto_rules::{SentenceFilter, StringFilter};
+use vaporetto_tantivy::VaporettoTokenizer;
+use vp_check::gen;
+use vp_check::report::*;
+
+fn golden(c: char) -> char {
+    golden::GOLDEN.iter().find(|(a, _)| *a == c).map_or(c, |(_, b)| *b)
+}
+
+fn norm(s: &str) -> Result<String, String> {
+    guard(|| KyteaFullwidthFilter.filter(s))
+}
+
+fn check_char(c: char) -> Option<(String, String)> {
+    let s = c.to_string();
+    let f = match norm(&s) {
+        Err(p) => return Some(("norm-panic".into(), format!("normaliser panicked on U+{:04X}: {p}", c as u32))),
+        Ok(f) => f,
+    };
+    let mut it = f.chars();
+    let (Some(fc), None) = (it.next(), it.next()) else {
+        return Some(("norm-length".into(), format!("U+{:04X} maps to {} characters ({f:?})", c as u32, f.chars().count())));
+    };
+    if fc != golden(c) {
+        return Some(("norm-table".into(), format!("U+{:04X} {c:?} maps to {fc:?}, the table says {:?}", c as u32, golden(c))));
+    }
+    match norm(&f) {
+        Ok(ff) if ff == f => None,
+        other => Some(("norm-idempotence".into(), format!("f(f({c:?})) = {other:?} but f({c:?}) = {f:?}"))),
+    }
+}
+
+fn check_string(s: &str) -> Option<(String, String)> {
+    let f = match norm(s) {
+        Err(p) => return Some(("norm-panic".into(), p)),
+        Ok(f) => f,
+    };
+    let want: String = s.chars().map(golden).collect();
+    if f != want {
+        return Some(("norm-string".into(), format!("f({s:?}) = {f:?}, character-wise table gives {want:?}")));
+    }
+    if f.chars().count() != s.chars().count() {
+        return Some(("norm-length".into(), format!("f({s:?}) has {} characters, input {}", f.chars().count(), s.chars().count())));
+    }
+    match norm(&f) {
+        Ok(ff) if ff == f => None,
+        other => Some(("norm-idempotence".into(), format!("f(f({s:?})) = {other:?}"))),
+    }
+}
+
+fn filters_for(wsconst: &str) -> Vec<Box<dyn SentenceFilter>> {
+    let mut v: Vec<Box<dyn SentenceFilter>> = vec![Box::new(SplitLinebreaksFilter)];
+    for c in wsconst.chars() {
+        v.push(match c {
+            'D' => Box::new(KyteaWsConstFilter::new(CharacterType::Digit)),
+            'R' => Box::new(KyteaWsConstFilter::new(CharacterType::Roman)),
+            'H' => Box::new(KyteaWsConstFilter::new(CharacterType::Hiragana)),
+            'T' => Box::new(KyteaWsConstFilter::new(CharacterType::Katakana)),
+            'K' => Box::new(KyteaWsConstFilter::new(CharacterType::Kanji)),
+            'O' => Box::new(KyteaWsConstFilter::new(CharacterType::Other)),
+            _ => Box::new(ConcatGraphemeClustersFilter),
+        });
+    }
+    v
+}
+
+type Tok = (String, usize, usize, usize);
+
+fn stream(tk: &mut VaporettoTokenizer, text: &str) -> Result<Vec<Tok>, String> {
+    guard(|| {
+        let mut st = tk.token_stream(text);
+        let mut out = vec![];
+        while st.advance() {
+            let t = st.token();
+            out.push((t.text.clone(), t.offset_from, t.offset_to, t.position));
+            if out.len() > 1000 {
+                panic!("token stream does not terminate");
+            }
+        }
+        out
+    })
+}
+
+/// Tokens the core pipeline dictates (None when the pipeline rejects the text).
+fn pipeline(pred: &Predictor, filters: &[Box<dyn SentenceFilter>], text: &str) -> Option<Vec<Tok>> {
+    let pre = KyteaFullwidthFilter.filter(text);
+    let mut s = Sentence::from_raw(pre).ok()?;
+    pred.predict(&mut s);
+    for f in filters {
+        f.filter(&mut s);
+    }
+    let idx: Vec<usize> = text.char_indices().map(|(i, _)| i).chain(std::iter::once(text.len())).collect();
+    let mut out = vec![];
+    let mut start = 0;
+    for (i, &b) in s.boundaries().iter().enumerate() {
+        if b == CharacterBoundary::WordBoundary {
+            out.push((text[idx[start]..idx[i + 1]].to_string(), idx[start], idx[i + 1], out.len()));
+            start = i + 1;
+        }
+    }
+    out.push((text[idx[start]..].to_string(), idx[start], text.len(), out.len()));
+    Some(out)
+}
+
+fn check_stream(tk: &mut VaporettoTokenizer, pred: &Predictor, filters: &[Box<dyn SentenceFilter>], text: &str) -> Option<(String, String)> {
+    let got = match stream(tk, text) {
+        Err(p) => return Some(("stream-panic".into(), format!("token_stream({text:?}) panicked: {p}"))),
+        Ok(g) => g,
+    };
+    // structural laws on the ORIGINAL text
+    let mut pos = 0;
+    for (k, (t, from, to, p)) in got.iter().enumerate() {
+        if *from != pos || to <= from || *to > text.len() || !text.is_char_boundary(*from) || !text.is_char_boundary(*to) {
+            return Some(("stream-tiling".into(), format!("token {k} spans {from}..{to} after {pos} in a text of {} bytes ({text:?})", text.len())));
+        }
+        if &text[*from..*to] != t {
+            return Some(("stream-text".into(), format!("token {k} text {t:?} != original substring {:?}", &text[*from..*to])));
+        }
+        if *p != k {
+            return Some(("stream-position".into(), format!("token {k} has position {p}")));
+        }
+        pos = *to;
+    }
+    if pos != text.len() {
+        return Some(("stream-tiling".into(), format!("tokens end at byte {pos} of {} ({text:?})", text.len())));
+    }
+    if text.is_empty() {
+        return if got.is_empty() { None } else { Some(("stream-empty".into(), format!("empty text produced {got:?}"))) };
+    }
+    if let Some(want) = pipeline(pred, filters, text) {
+        if got != want {
+            return Some(("stream-breaks".into(), format!("text {text:?}: stream {:?}, core pipeline {:?}", got.iter().map(|t| (t.1, t.2)).collect::<Vec<_>>(), want.iter().map(|t| (t.1, t.2)).collect::<Vec<_>>())));
+        }
+    }
+    None
+}
+
+fn models() -> Vec<(String, Vec<u8>)> {
+    let mut out = vec![];
+    let z = std::fs::read("/repo/vaporetto_tantivy/test_model/model.zst").unwrap_or_else(|e| machinery_error(&format!("test model: {e}")));
+    out.push(("tantivy-test-model".to_string(), zstd_decode(&z)));
+    out.push(("resources/model.bin".to_string(), std::fs::read("/repo/resources/model.bin").unwrap_or_else(|e| machinery_error(&e.to_string()))));
+    out.push(("generated-plain".to_string(), vp_check::bfs::model_plain().to_bytes()));
+    let mut m = vp_check::bfs::model_plain();
+    m.bias = 3; // breaks almost everywhere
+    m.char_ngram_model.push(vp_check::mirror::NgramData { ngram: "ａ".into(), weights: vec![-9, -9, -9, -9] });
+    m.char_ngram_model.push(vp_check::mirror::NgramData { ngram: "−".into(), weights: vec![0, 5, -20, 0] });
+    out.push(("generated-fullwidth".to_string(), m.to_bytes()));
+    out
+}
+
+fn zstd_decode(z: &[u8]) -> Vec<u8> {
+    zstd::decode_all(z).unwrap_or_else(|e| machinery_error(&format!("cannot decode the Tantivy test model: {e}")))
+}
+
+fn replay(c: &Value) -> Option<(String, String)> {
+    match c["kind"].as_str()? {
+        "char" => {
+            let ch = char::from_u32(c["c"].as_u64()? as u32)?;
+            check_char(ch).map(|(k, w)| (format!("{k} U+{:04X}", ch as u32), w))
+        }
+        "string" => {
+            let s = c["s"].as_str()?;
+            check_string(s).map(|(k, w)| (format!("{k} s={s:?}"), w))
+        }
+        _ => {
+            let bytes: Vec<u8> = serde_json::from_value(c["model"].clone()).ok()?;
+            let ws = c["wsconst"].as_str()?;
+            let text = c["text"].as_str()?;
+            let name = c["name"].as_str()?;
+            let mut tk = VaporettoTokenizer::new(Model::read_slice(&bytes).ok()?.0, ws).ok()?;
+            let pred = Predictor::new(Model::read_slice(&bytes).ok()?.0, false).ok()?;
+            let class = if text.contains('\0') { "text-with-NUL".to_string() } else { format!("text={text:?}") };
+            check_stream(&mut tk, &pred, &filters_for(ws), text).map(|(k, w)| (format!("{k} model={name} wsconst={ws:?} {class}"), w))
+        }
+    }
+}
+
+fn main() {
+    let args: Vec<String> = std::env::args().collect();
+    if args.len() >= 3 && args[1] == "replay" {
+        let v: Value = serde_json::from_str(&std::fs::read_to_string(&args[2]).unwrap()).unwrap();
+        quiet_panics();
+        match replay(&v["case"]) {
+            Some((sig, what)) => {
+                println!("VIOLATION property=C16 replay={}\n  what: {what} [{sig}]", args[2]);
+                std::process::exit(1);
+            }
+            None => {
+                println!("replay: property C16 holds on this case");
+                std::process::exit(0);
+            }
+        }
+    }
+    let tier = if args.get(2).map(|s| s.as_str()) == Some("thorough") { Tier::Thorough } else { Tier::Quick };
+    let chk = Check::new("C16", tier, "exploration");
+    quiet_panics();
+    // Part 1a: all Unicode scalar values
+    (0u32..=0x10FFFF).into_par_iter().for_each(|u| {
+        if let Some(c) = char::from_u32(u) {
+            chk.eval(1);
+            if golden(c) != c {
+                chk.nontrivial(1);
+            }
+            if let Some((k, what)) = check_char(c) {
+                chk.violation(format!("{k} U+{u:04X}"), what, json!({"kind": "char", "c": u}));
+            }
+        }
+    });
+    chk.set("unicode_scalar_values", json!(1_112_064u64));
+    // Part 1b: strings over 8 table and 4 non-table characters
+    let sigma = ['a', 'Z', '0', '-', '.', '｡', '－', '"', 'あ', 'ａ', '\0', '𠀋'];
+    let strings = gen::strings(&sigma, 0, tier.pick(3, 4));
+    strings.par_iter().for_each(|s| {
+        let s = gen::s(s);
+        chk.eval(1);
+        chk.nontrivial(1);
+        if let Some((k, what)) = check_string(&s) {
+            chk.violation(format!("{k} s={s:?}"), what, json!({"kind": "string", "s": s}));
+        }
+    });
+    // Part 2: token stream
+    let tsigma = ['a', '1', 'A', 'あ', '亜', '-', '\r', '\n', '\u{200d}', '👨', '𠀋', '\0'];
+    let texts: Vec<String> = gen::strings(&tsigma, 0, tier.pick(4, 5)).iter().map(|t| gen::s(t)).collect();
+    let wss: Vec<String> = gen::strings(&['D', 'R', 'H', 'T', 'K', 'O', 'G'], 0, tier.pick(2, 3)).iter().map(|t| gen::s(t)).collect();
+    chk.set("stream_texts", json!(texts.len()));
+    chk.set("wsconst_strings", json!(wss.len()));
+    let ms = models();
+    chk.set("models", json!(ms.iter().map(|m| m.0.clone()).collect::<Vec<_>>()));
+    let jobs: Vec<(usize, &String)> = ms.iter().enumerate().flat_map(|(i, _)| wss.iter().map(move |w| (i, w))).collect();
+    jobs.par_iter().for_each(|(mi, ws)| {
+        let (name, bytes) = &ms[*mi];
+        let mk = || Model::read_slice(bytes).unwrap_or_else(|e| machinery_error(&format!("{name}: {e}"))).0;
+        let mut tk = match guard(|| VaporettoTokenizer::new(mk(), ws)) {
+            Ok(Ok(t)) => t,
+            Ok(Err(e)) => machinery_error(&format!("VaporettoTokenizer::new({name}, {ws:?}): {e}")),
+            Err(p) => machinery_error(&format!("VaporettoTokenizer::new panicked: {p}")),
+        };
+        let pred = Predictor::new(mk(), false).unwrap_or_else(|e| machinery_error(&e.to_string()));
+        let filters = filters_for(ws);
+        // every model sees every text with the short wsconst strings; long ones rotate over texts
+        let stride = if ws.len() <= 1 || tier == Tier::Thorough && ws.len() <= 2 { 1 } else { tier.pick(7, 5) };
+        for text in texts.iter().skip(ws.len() % stride).step_by(stride) {
+            chk.eval(1);
+            if text.chars().count() >= 2 {
+                chk.nontrivial(1);
+            }
+            if let Some((k, what)) = check_stream(&mut tk, &pred, &filters, text) {
+                // class-level signature: NUL-bearing texts are one class
+                let class = if text.contains('\0') { "text-with-NUL".to_string() } else { format!("text={text:?}") };
+                chk.violation(format!("{k} model={name} wsconst={ws:?} {class}"), what, json!({"kind": "stream", "name": name, "model": bytes, "wsconst": ws, "text": text}));
+            }
+        }
+    });
+    chk.sample(json!({"kind": "stream", "model": "tantivy-test-model", "wsconst": "DG", "text": "a1\r\n👨"}));
+    chk.sample(json!({"kind": "char", "c": "U+FF0D", "expected": "ー"}));
+    chk.assume("golden table: a copy of the 96 KyTea mappings taken from the pinned commit (harness/vp-tantivy/src/golden.rs)");
+    chk.assume("for texts the core pipeline rejects (NUL) only the structural laws (tiling, substrings, positions, no panic) are required");
+    let replay_fn = |c: &Value| replay(c);
+    chk.finish(
+        "normaliser: all 1 112 064 Unicode scalar values (one character out, golden table or identity, idempotent) and all strings up to the bound over 8 table + 4 non-table characters; token stream: 4 models x texts up to the bound over {a,1,A,あ,亜,-,CR,LF,ZWJ,👨,𠀋,NUL} and the empty text x wsconst strings over {D,R,H,T,K,O,G} (all texts for short wsconst strings, a rotating 1/7 resp. 1/5 of the texts for the longest); tokens must tile the original text on character boundaries with original substrings and consecutive positions, and break exactly where normalise+predict+line-break filter+configured filters break; non-trivial = table character / text of >= 2 characters; distinct by construction",
+        true,
+        &replay_fn,
+    )
+}
